@@ -78,4 +78,41 @@ def callbackLegacy (store : Store) (f : Facts) (s : Session) : Nat × Session :=
 /-- `OIDC.Authenticated` in front of the download handler: 200 = handler reached, 302 = to the IdP -/
 def connect (s : Session) : Nat := if s.authenticated then 200 else 302
 
+/-! ## The state store over time
+
+`OIDC.stateStore` is a go-cache with a two-minute default expiry: `Authenticated` puts a fresh random
+state into it, `HandleCallback` only looks states up.  Time is a parameter of every event. -/
+
+/-- one entry: the state value and when it expires -/
+structure Entry where
+  state : Bytes
+  expires : Nat
+deriving Repr, DecidableEq
+
+abbrev StateStore := List Entry
+
+inductive StoreEv where
+  /-- an unauthenticated request at time `now` is redirected with the fresh state value `state` -/
+  | issue (now : Nat) (state : Bytes)
+  /-- a callback at time `now` naming `state` (whatever else it carries) -/
+  | callback (now : Nat) (state : Bytes)
+deriving Repr, DecidableEq
+
+/-- `Set(state, uri, DefaultExpiration)`: replaces an entry of the same name -/
+def storeStep (st : StateStore) : StoreEv → StateStore
+  | .issue now s => ⟨s, now + stateLifetime⟩ :: st.filter (fun e => e.state ≠ s)
+  | .callback _ _ => st
+
+def storeRun : StateStore → List StoreEv → StateStore
+  | st, [] => st
+  | st, e :: es => storeRun (storeStep st e) es
+
+/-- `Get(state)` at time `now`: found and not yet expired -/
+def known (st : StateStore) (now : Nat) (s : Bytes) : Bool :=
+  st.any fun e => e.state == s && decide (now < e.expires)
+
+/-- the expiry the store holds for a state, if any -/
+def expiryOf (st : StateStore) (s : Bytes) : Option Nat :=
+  (st.find? fun e => e.state == s).map (·.expires)
+
 end Rdpgw.Oidc
